@@ -577,7 +577,8 @@ fn gen_prog(rng: &mut Rng, arch: Arch) -> Prog {
     }
     let pick_target = |rng: &mut Rng, from: usize| -> usize {
         for _ in 0..20 {
-            let t = match rng.below(8) {
+            let t = match rng.below(9) {
+                8 => from + 2,                           // the instruction behind the delay slot: both successors coincide
                 0 => entry + 15,                         // last word of the entry window
                 1 => entry + 16,                         // first word of the next window
                 2 => entry + rng.below(15) as usize + 1, // inside the block lifted first
